@@ -20,6 +20,7 @@ each run: violation `C09:discipline-does-not-imply-shadow`) — that implication
 Missing beyond that: the real collector and finalizer timing, `mmap` address reuse (assumed).
 -/
 import Wz.Proofs.C09_Graph
+import Wz.Proofs.C09_Pinned
 
 namespace Wz.C09
 open Wz.Model.Lifetime
@@ -121,6 +122,26 @@ theorem witness_repaired :
     outsW (W.init .compiler false true) f7History =
       [.ok, .ok, .ok, .val 105, .ok, .ok, .ok, .ok, .val 105] ∧
     (runW (W.init .compiler false true) f7History).g.shadowOk = true := by
+  decide
+
+/-- **pass_shadowed_repaired** — finding switch, repaired variant (`pinRefs`), for ALL worlds and all
+reference-passing ops (any source, any destination, whatever happened before): storing a reference never
+clears `shadowOk`, provided the primitives of the step passed their guards (`stepOk`, reported by the
+oracle per step as `primsok`). So in the repaired variant the only edges that can ever violate the proviso
+of `raw_edges_covered_partial` / `no_dangling_use_partial` are the fixed ones laid down by `inst`
+(evaluated to be shadowed on every history the harness runs). The as-is variant has no such theorem:
+`witness_not_shadowed`. -/
+theorem pass_shadowed_repaired (w : W) (hp : w.pinRefs = true) (s d : Nat) (how : How) (wh : Where)
+    (hok : stepOk w (.pass s how d wh) = true) :
+    (stepW w (.pass s how d wh)).1.g.shadowOk = w.g.shadowOk :=
+  pinned_pass_shadowed_aux w hp s d how wh hok
+
+set_option maxRecDepth 100000 in
+/-- hypotheses of `pass_shadowed_repaired` are satisfiable by the offending op of the witness -/
+example :
+    let w := runW (W.init .compiler false true) (f7History.take 2)
+    w.pinRefs = true ∧ stepOk w (.pass 0 .own 1 (.tab 2)) = true ∧
+    disciplined w (.pass 0 .own 1 (.tab 2)) = false := by
   decide
 
 /-- **close_is_error_not_crash** — a call into a closed instance the host still holds (model of
